@@ -148,6 +148,11 @@ def run(E: Engine, rep: Report, tier: str) -> dict:
         a = arg(l, 0, "duration")
         ok = a == sym.mk_add([("attr", mk[-1].value, "ti"), sym.mk_neg(LAST_TF)]) and arg(l, 1, "channel") == ("name", "channel")
         rep.check(ok, "FLOW", "_Schedule.add_pulse|delay=slot.ti-last.tf", "inserted delay = slot.ti - last.tf (no gap, no overlap)", f"the delay inserted before the pulse is not exactly slot.ti - last.tf: {sh(a, 200)}", E.where(f, l.node))
+        # ... whenever it is positive: the only condition on the insertion is `slot.ti - last.tf > 0` (in any
+        # protocol the slot may start later than the channel's end, e.g. behind a phase barrier under 'no-delay')
+        gap = sym.mk_add([("attr", mk[-1].value, "ti"), sym.mk_neg(LAST_TF)])
+        extra = [x for x in sym.conj_of(l.cond) if not (sym.contains(x, ("attr", mk[-1].value, "ti")) and x[0] == "cmp" and x[1] in ("Lt", "LtE", "NotEq"))]
+        rep.check(not extra and bool(sym.conj_of(l.cond)), "FLOW", "_Schedule.add_pulse|gap-filled-whenever-positive", "the delay is inserted under `slot.ti - last.tf > 0` only", f"the delay before the pulse is inserted only under `{sh(l.cond, 160)}`: when the extra condition fails and the slot starts after the channel's end, the timeline has a gap", E.where(f, l.node))
     # append order in add_pulse: the delay comes before the pulse slot
     fl = E.flow(f)
     add_delay = E.method(SCHED, "add_delay")
